@@ -6,6 +6,7 @@ from ..facts import AnalysisBroken
 from ..predabs import Vocab, PredAbs, A, Not, And, Or, T, F, translate, total, known_when
 from ..rules import common
 from .. import finite
+from ..locks import LOCK_TYPES
 
 TITLE = "Every accepted task runs exactly once before pool shutdown completes"
 TECHNIQUE = 'custom static analysis over clang-14 CFG facts: must-lockset, condition-variable discipline, exception-edge modelling for task invocation, counting rules over worker bookkeeping'
@@ -24,7 +25,17 @@ EXPLANATION = (
     "R6 the result-returning submit wraps a packaged_task whose invocation is the queued closure; R7 every insertion into the worker map is "
     "in the critical section that tested the size against the maximum (thread cap); R8 condition-variable discipline for the worker wait; "
     "R10 the worker counts started without a cap test (constructor, start()) are evaluated exactly from the constructor's initialisers and never exceed "
-    "_maxSize, and every return of shutdown() is behind the join, a wait, or a mutex the joining caller holds (known finding: second shutdown()).")
+    "_maxSize, and every return of shutdown() is behind the join, a wait, or a mutex the joining caller holds (known finding: second shutdown()); "
+    "R11 every unconditional spawn site (constructor, start(): a spawnWorker() call that is not behind the thread-cap test) is reached only after the creating function itself stored false into "
+    "_shutdown (or initialised it so) on every path — a worker created while the flag is still set takes the shutdown exit at once and leaves a dead entry in the worker map. "
+    "R2, R5, R9, R10, R11 follow calls into the pool's private helpers (a helper 'does X' when all its paths do; a helper's constant results are tabulated against the event they report).")
+# exempt from the function-inventory guard (report.py): these rules hold for, or look into, functions they have never seen
+FOLLOWS_HELPERS = {"C09-R1": "universal: every access to a guarded field is judged where it is, with the entry lock set of a private helper taken from its call sites",
+                   "C09-R2": "the push, the refusals and the notify are followed into the pool's private helpers (push_sites, submit_flow: does / result_table)",
+                   "C09-R5": "the removal of a worker entry from _threads is followed into helpers; a helper's result decides the ghost (result_table)",
+                   "C09-R9": "refusal exits are expanded into the helper whose result decides them; lock, push, spawn and notify are counted over the helpers the submit function calls",
+                   "C09-R10": "spawn sites are enumerated over every named function of the class; the cap test is followed through bool locals and helper parameters (on_demand_spawn)",
+                   "C09-R11": "spawn sites are enumerated over every named function of the class; a store of the flag inside a helper counts when all its paths make it (flag_abs)"}
 NOT_DECIDED = ["the polling drains (`_activeThreads == 0 && pending == 0` sampled with sleeps) — timing; the joins of R5 carry the 'returns only after every accepted task finished' clause",
                "fairness between workers", "the instrumentation counters"]
 
@@ -48,6 +59,189 @@ def tasks_call(n, methods=None):
     return m if methods is None or m in methods else None
 
 
+# ------------------------------------------------------------------ following calls into the pool's own helpers
+# General mechanisms; no helper is known by name.  A call `this->h(...)` to a private method of the class (one definition, in
+# thread_pool.hpp) is resolved through fb.by_name.  "h does X" means every path through h executes an X — directly or through a
+# helper that does.  "h's result tells whether X happened" is a table {constant h returns: always | never | maybe}; a comparison of
+# that result with a constant (also through a once-initialised local) then refines a ghost atom in the caller's abstraction.
+
+def is_lock_type(t):
+    """lock_guard / unique_lock / scoped_lock / shared_lock — one spelling is as good as another"""
+    return bool(LOCK_TYPES.match(t or ""))
+
+
+def own(f):
+    return f.ok and f.file.endswith(FILE) and (f.cls == TP or f.name.startswith(TP + "::"))
+
+
+def helper(ctx, n):
+    """the private method of the pool a call node `this->h(...)` resolves to, else None"""
+    if not isinstance(n, dict) or n.get("k") != "mcall" or (n.get("obj") or {}).get("k") != "this" or n.get("virt"):
+        return None
+    gs = [g for g in ctx.fb().by_name.get(n.get("callee") or "", []) if own(g) and g.kind == "method" and g.access in ("private", "protected")]
+    if len({(g.file, g.line) for g in gs}) != 1:
+        return None
+    return gs[0]
+
+
+def helpers_from(ctx, f, depth=4):
+    """the helpers reachable from f through such calls (f itself excluded; lambdas are not entered: their bodies run elsewhere)"""
+    out, work = [], [(f, 0)]
+    while work:
+        g, d = work.pop()
+        for e in g.stmts():
+            h = helper(ctx, e.node)
+            if h is not None and h is not f and d < depth and all(h is not x for x in out):
+                out.append(h)
+                work.append((h, d + 1))
+    return out
+
+
+def does(ctx, g, direct, depth=3):
+    """elements of g at which the event certainly happens: direct(e), or a call to a helper all of whose paths do it"""
+    out = []
+    for e in g.stmts():
+        if direct(e):
+            out.append(e)
+        elif depth > 0:
+            h = helper(ctx, e.node)
+            if h is not None and h is not g and always(ctx, h, direct, depth - 1):
+                out.append(e)
+    return out
+
+
+def may(ctx, g, direct, depth=3):
+    """elements of g at which the event may happen (direct, or somewhere inside a helper called there)"""
+    out = []
+    for e in g.stmts():
+        if direct(e):
+            out.append(e)
+        elif depth > 0:
+            h = helper(ctx, e.node)
+            if h is not None and h is not g and may(ctx, h, direct, depth - 1):
+                out.append(e)
+    return out
+
+
+def always(ctx, h, direct, depth=3):
+    """every path through h from entry to a normal exit passes the event"""
+    ev = does(ctx, h, direct, depth)
+    return bool(ev) and search(h, ("entry",), "exit", stop=lambda x: x in ev, eh=False) is None
+
+
+def result_table(ctx, h, direct):
+    """{constant: 'always' | 'never' | 'maybe'}: for each constant h returns, whether the event happened on the way to a return of
+    that constant.  None when h returns something that is not a constant (then its result says nothing a rule can use)."""
+    mayev, mustev = may(ctx, h, direct), does(ctx, h, direct)
+    rets = common.returns(h)
+    if not rets:
+        return None
+    tab = {}
+    for x in rets:
+        v = const_value(x.node.get("v") or {})
+        if v is None:
+            return None
+        if all(search(h, e, lambda y, x=x: y is x, eh=False) is None for e in mayev):
+            c = "never"
+        elif search(h, ("entry",), lambda y, x=x: y is x, stop=lambda y: y in mustev, eh=False) is None:
+            c = "always"
+        else:
+            c = "maybe"
+        tab[v] = c if tab.get(v, c) == c else "maybe"
+    return tab
+
+
+def through_locals(f, n):
+    """n — or, when n reads a local that is initialised once and never written again, that initialiser: giving an intermediate
+    result a name does not change what a rule sees"""
+    for _ in range(4):
+        n = strip_casts(n)
+        if n is None or n.get("k") != "var" or n.get("parm") is not None:
+            return n
+        vs = [v for e in f.stmts() if e.node.get("k") == "decl" for v in e.node["vars"] if v["d"] == n.get("d")]
+        if len(vs) != 1 or vs[0].get("init") is None:
+            return n
+        uses = [x for x in f.nodes.values() if x.get("k") == "var" and x.get("d") == n["d"] and x.get("parm") is None]
+        const = (vs[0].get("t") or "").startswith("const ")
+        if not const and any(access.classify(f, x) != "read" or (f.nodes.get(f.parent.get(x["id"])) or {}).get("k") in ("call", "mcall", "ctor") for x in uses):
+            return n       # written again, or handed to a call that may write it through a reference
+        n = vs[0]["init"]
+    return n
+
+
+def _result_formula(tab, c, atom):
+    """`result == c` as a (possibly partial) formula over the ghost atom, from the helper's result table"""
+    cls = tab.get(c)
+    if cls is None:
+        return F          # the helper never returns that constant
+    others = [tab[v] for v in tab if v != c]
+    if cls == "always":
+        return A(atom) if all(o == "never" for o in others) else ("and?", A(atom), None)
+    if cls == "never":
+        return Not(A(atom)) if all(o == "always" for o in others) else ("and?", Not(A(atom)), None)
+    if others and all(o == "always" for o in others):
+        return ("or?", Not(A(atom)), None)      # result != c  =>  happened
+    if others and all(o == "never" for o in others):
+        return ("or?", A(atom), None)           # result != c  =>  did not happen
+    return None
+
+
+def result_leaf(ctx, f, direct, atom):
+    """leaf translator for PredAbs: a comparison of a helper's result with a constant — or a bool result used as the condition —
+    says whether the event `atom` happened inside that call"""
+    def leaf(n):
+        for (op, a, b) in common.cmp_both(n):
+            if op not in ("==", "!="):
+                break
+            c, x = const_value(b), through_locals(f, a)
+            h = helper(ctx, x) if c is not None else None
+            if h is None:
+                continue
+            tab = result_table(ctx, h, direct)
+            fm = _result_formula(tab, c, atom) if tab is not None else None
+            if fm is None:
+                return None
+            return fm if op == "==" else (("not", fm) if fm[0] in ("and?", "or?") else Not(fm))
+        x = through_locals(f, n)
+        h = helper(ctx, x)
+        if h is not None and finite._ty(x.get("t")) == "bool":
+            tab = result_table(ctx, h, direct)
+            return _result_formula(tab, 1, atom) if tab is not None else None
+        return None
+    return leaf
+
+
+def flag_locals(f, vocab_atoms):
+    """bool locals used as flags — every definition is a constant (`bool found = false; … found = true;`) — become atoms of their
+    own: (leaf, effects, atom names).  A branch on such a flag is then as good as a branch at the place where it was set."""
+    defs = {}
+    for e in f.stmts():
+        n = e.node
+        if n.get("k") == "decl":
+            for v in n["vars"]:
+                if finite._ty(v.get("t")) == "bool":
+                    defs.setdefault(v["d"], []).append((e, const_value(v["init"]) if v.get("init") is not None else None))
+    for e in f.stmts():
+        n = e.node
+        if n.get("k") == "bin" and n.get("op", "").endswith("=") and n["op"] not in ("==", "!=", "<=", ">="):
+            l = strip_casts(n["lhs"])
+            if l is not None and l.get("k") == "var" and l.get("d") in defs and l.get("parm") is None:
+                defs[l["d"]].append((e, const_value(n["rhs"]) if n["op"] == "=" else None))
+    for x in f.nodes.values():        # a flag handed to a call may be written there: not tracked
+        if x.get("k") == "var" and x.get("d") in defs and x.get("parm") is None and (f.nodes.get(f.parent.get(x["id"])) or {}).get("k") in ("call", "mcall", "ctor"):
+            defs.pop(x["d"])
+    atoms, eff = {}, {}
+    for d, lst in defs.items():
+        if all(v in (0, 1) for (_, v) in lst) and len(vocab_atoms) + len(atoms) < 10:
+            atoms[d] = "flag:%d" % d
+            for (e, v) in lst:
+                eff.setdefault(e, []).append(("set", atoms[d], bool(v)))
+
+    def leaf(n):
+        return A(atoms[n["d"]]) if n.get("k") == "var" and n.get("parm") is None and n.get("d") in atoms else None
+    return leaf, (lambda e: eff.get(e)), sorted(atoms.values())
+
+
 def r1(ctx, r):
     fb, la = ctx.fb(), ctx.locks()
     common.guarded_by(r, fb, la, TP + "::_tasks", M, files=[FILE])
@@ -62,10 +256,73 @@ def r1(ctx, r):
     r.floor(25, "guarded access sites")
 
 
+def is_push(e):
+    return e.kind == "stmt" and tasks_call(e.node, ("emplace", "push")) is not None
+
+
+def is_notify(e):
+    return e.kind == "stmt" and e.node.get("k") == "mcall" and last(e.node.get("callee", "")) in ("notify_one", "notify_all")
+
+
+def is_spawn(e):
+    return e.kind == "stmt" and e.node.get("k") == "mcall" and last(e.node.get("callee", "")) == "spawnWorker"
+
+
+def push_sites(ctx, f):
+    """[(function, element)]: where f — itself or through the pool's helpers it calls — puts a task into the queue"""
+    return [(g, e) for g in [f] + helpers_from(ctx, f) for e in g.stmts() if is_push(e)]
+
+
+def _push_then_notify(ctx, h, depth=2):
+    """inside helper h, every push is followed by a notify on every path to h's exit"""
+    nt = does(ctx, h, is_notify)
+    for e in may(ctx, h, is_push):
+        hh = helper(ctx, e.node)
+        if hh is not None and depth > 0 and _push_then_notify(ctx, hh, depth - 1):
+            continue
+        if search(h, e, "exit", stop=lambda x: x in nt, eh=False) is not None:
+            return False
+    return True
+
+
+def submit_flow(ctx, f):
+    """predicate abstraction of a submit function over two ghosts — `pushed` (the task is in the queue) and `notified` (a worker
+    was woken after that) — following the pool's own helpers: a helper that pushes on every path sets `pushed`; one that pushes on
+    some paths leaves it open and the comparison of its result with a constant decides it (result_table); a helper all of whose
+    paths notify sets `notified`"""
+    vocab = Vocab(["pushed", "notified"])
+
+    def eff(e):
+        if e.kind != "stmt":
+            return None
+        if is_push(e):
+            return [("set", "pushed", True), ("set", "notified", False)]
+        if is_notify(e):
+            return [("set", "notified", True)]
+        h = helper(ctx, e.node)
+        if h is None:
+            return None
+        if may(ctx, h, is_push):
+            return [("set", "pushed", True) if always(ctx, h, is_push) else ("havoc", "pushed"), ("set", "notified", _push_then_notify(ctx, h))]
+        if always(ctx, h, is_notify):
+            return [("set", "notified", True)]
+        return None
+    return PredAbs(f, vocab, result_leaf(ctx, f, is_push, "pushed"), eff, init=And(Not(A("pushed")), Not(A("notified"))))
+
+
 def r2(ctx, r):
     la = ctx.locks()
     for name in ("enqueueImpl", "tryEnqueueImpl"):
-        f = fn(ctx, name)
+        entry = fn(ctx, name)
+        # the push may live in a helper shared by the two submit functions: the critical section is judged where the push is
+        sites = push_sites(ctx, entry)
+        r.instance()
+        if len(sites) != 1:
+            r.fail(entry, None, "%s: push sites" % name, "%s queues the task at %d sites" % (name, len(sites)))
+            continue
+        f, p = sites[0]
+        if f is not entry and not any(x.node.get("k") == "decl" and any(M in (la.fn(f).lockvars.get(v["d"]) or ((),))[0] for v in x.node["vars"]) and elem_dominates(f, x, p) for x in f.stmts()):
+            raise AnalysisBroken("%s: the push is in helper %s, which runs under a lock its caller took — the critical section spans two functions, which this rule does not follow" % (name, short(f.name)))
         vocab = Vocab(["shutdown", "full"])
 
         def leaf(n):
@@ -79,34 +336,28 @@ def r2(ctx, r):
             return None
 
         def eff(e):
-            if e.kind == "stmt" and e.node.get("k") == "decl" and any(v["t"].startswith(("std::unique_lock", "std::lock_guard")) for v in e.node["vars"]):
+            if e.kind == "stmt" and e.node.get("k") == "decl" and any(is_lock_type(v["t"]) for v in e.node["vars"]):
                 return [("havoc_all", ["shutdown", "full"])]
-            if e.kind == "dtor" and e.raw.get("t", "").startswith(("std::unique_lock", "std::lock_guard")):
+            if e.kind == "dtor" and is_lock_type(e.raw.get("t", "")):
                 return [("havoc_all", ["shutdown", "full"])]
             if e.kind == "stmt" and tasks_call(e.node) in ("emplace", "push", "pop"):
                 return [("havoc", "full")]
             return None
         pa = PredAbs(f, vocab, leaf, eff, track_bools=True)
-        pushes = [e for e in f.stmts() if tasks_call(e.node, ("emplace", "push"))]
-        r.instance()
-        if len(pushes) != 1:
-            r.fail(f, None, "%s: push sites" % name, "%s queues the task at %d sites" % (name, len(pushes)))
-            continue
-        p = pushes[0]
-        r.expect(la.holds(f, p, M) and pa.entails(p, And(Not(A("shutdown")), Not(A("full")))), f, p, "%s: push without shutdown/limit test" % name,
+        r.expect(la.holds(f, p, M) and pa.entails(p, And(Not(A("shutdown")), Not(A("full")))), entry, p, "%s: push without shutdown/limit test" % name,
                  "%s queues a task without having seen, in the same critical section, the pool not shut down and the queue below its limit (known: %s): a task can be accepted "
                  "after stop() completed and never run, or the queue bound is exceeded" % (name, ",".join(pa.describe(p))), okdesc="%s: push under _mutex after !_shutdown && size < max" % name)
-        # every refusal happens before the push
-        refusals = [e for e in f.stmts() if e.node.get("k") == "throw"] + [e for e in common.returns(f) if const_value(e.node.get("v") or {}) == 0]
+        # every refusal happens before the push: at a refusing exit of the submit function the task is known not to be queued
+        # (ghost `pushed`; when the push is in a helper, the helper's result decides it)
+        flow = submit_flow(ctx, entry)
+        refusals = [e for e in entry.stmts() if e.node.get("k") == "throw"] + [e for e in common.returns(entry) if const_value(e.node.get("v") or {}) == 0]
         r.instance()
-        bad = [x for x in refusals if search(f, p, lambda y, x=x: y is x, eh=False) is not None]
-        r.expect(refusals and not bad, f, bad[0] if bad else None, "%s: refusal after push" % name, "%s can refuse (throw / return false) after the task was already queued" % name,
+        bad = [x for x in refusals if not flow.entails(x, Not(A("pushed")))]
+        r.expect(refusals and not bad, entry, bad[0] if bad else None, "%s: refusal after push" % name, "%s can refuse (throw / return false) after the task was already queued" % name,
                  okdesc="%s: all refusals precede the push" % name)
-        # an accepted task is announced to a worker
-        nots = [e for e in f.stmts() if e.node.get("k") == "mcall" and last(e.node.get("callee", "")) in ("notify_one", "notify_all")]
+        # an accepted task is announced to a worker: at every normal exit, queued implies notified afterwards
         r.instance()
-        w = search(f, p, "exit", stop=lambda x: x in nots, eh=False)
-        r.expect(w is None, f, p, "%s: no notify" % name, "a queued task is not followed by a notify on every path: an idle worker is not woken", witness=witness_str(f, w),
+        r.expect(flow.exit_entails(Or(Not(A("pushed")), A("notified"))), entry, p, "%s: no notify" % name, "a queued task is not followed by a notify on every path: an idle worker is not woken (known at exit: %s)" % ",".join(flow.describe_exit()),
                  okdesc="%s: push followed by notify" % name)
 
 
@@ -140,11 +391,26 @@ def r3(ctx, r):
             owner = g.enclosing.name if g.kind == "lambda" and g.enclosing is not None else g.name
             r.expect(owner == TP + "::reset", g, e, "task removed without being run", "%s removes a queued task with _tasks.%s(): an accepted task leaves the queue without being executed (its future, if any, reports "
                      "broken_promise) — and std::queue::pop() removes the OLDEST entry, not the one just added" % (short(g.name), m), okdesc="reset(): queue cleared only in the Stopped state")
-    calls = [e for (e, t) in common.fn_invocations(w) if show(t) == "task"]
+    # the local that holds the dequeued task is the one that receives `_tasks.front()` (assignment or initialiser) — identified by
+    # dataflow, not by its name
+    fr, td = fronts[0].node, None
+    for e in w.stmts():
+        n = e.node
+        if n.get("k") == "opcall" and n.get("op") == "=" and len(n["args"]) == 2 and any(x is fr for x in walk(n["args"][1])):
+            l = strip_wrappers(n["args"][0])
+            td = l.get("d") if l is not None and l.get("k") == "var" else td
+        elif n.get("k") == "decl":
+            for v in n["vars"]:
+                if v.get("init") is not None and any(x is fr for x in walk(v["init"])):
+                    td = v["d"]
+    if td is None:
+        raise AnalysisBroken("worker: the local that receives `_tasks.front()` was not identified")
+    is_task = lambda x: x is not None and x.get("k") == "var" and x.get("d") == td and x.get("parm") is None
+    calls = [e for (e, t) in common.fn_invocations(w) if is_task(strip_wrappers(t))]
     vocab = Vocab(["have", "ran", "twice", "nonempty"])
 
     def leaf(n):
-        if n.get("k") == "mcall" and last(n.get("callee", "")).startswith("operator bool") and (n.get("obj") or {}).get("k") == "var" and n["obj"]["n"] == "task":
+        if n.get("k") == "mcall" and last(n.get("callee", "")).startswith("operator bool") and is_task(n.get("obj")):
             return A("have")
         if n.get("k") == "mcall" and tasks_call(n, ("empty",)):
             return Not(A("nonempty"))
@@ -155,13 +421,13 @@ def r3(ctx, r):
             return [("set", "have", True), ("set", "ran", False), ("set", "twice", False)]
         if e in calls:
             return [("assign", "twice", Or(A("twice"), A("ran"))), ("set", "ran", True)]
-        if e.kind == "stmt" and e.node.get("k") == "decl" and any(v["n"] == "task" for v in e.node["vars"]):
+        if e.kind == "stmt" and e.node.get("k") == "decl" and any(v["d"] == td for v in e.node["vars"]):
             return [("set", "have", False), ("set", "ran", False), ("set", "twice", False)]
         return None
     pa = PredAbs(w, vocab, leaf, eff, init=And(Not(A("have")), Not(A("ran")), Not(A("twice"))), eh_after=True)
     # at the start of the next iteration (the decl of `task`) and at every return: a dequeued task ran exactly once
     goal = Or(Not(A("have")), And(A("ran"), Not(A("twice"))))
-    heads = [e for e in w.stmts() if e.node.get("k") == "decl" and any(v["n"] == "task" for v in e.node["vars"])]
+    heads = [e for e in w.stmts() if e.node.get("k") == "decl" and any(v["d"] == td for v in e.node["vars"])]
     for h in heads + common.returns(w):
         r.instance()
         r.expect(pa.entails(h, goal), w, h, "dequeued task not run exactly once", "the worker can reach %s having dequeued a task that ran %s (known: %s)" % (
@@ -176,8 +442,7 @@ def r3(ctx, r):
     # the task object is released before the active counter drops
     decs = [e for e in w.stmts() if e.node.get("k") in ("opcall", "mcall") and field_of((e.node.get("args") or [e.node.get("obj")])[0] if e.node.get("k") == "opcall" else e.node.get("obj")) == TP + "::_activeThreads" and
             (e.node.get("op") == "--" or last(e.node.get("callee", "")) == "fetch_sub")]
-    rel = [e for e in w.stmts() if e.node.get("k") == "opcall" and e.node.get("op") == "=" and e.node["args"][0].get("k") == "var" and e.node["args"][0]["n"] == "task" and e not in
-           [x for x in w.stmts() if "front" in show(x.node)]]
+    rel = [e for e in w.stmts() if e.node.get("k") == "opcall" and e.node.get("op") == "=" and is_task(e.node["args"][0]) and not any(x is fr for x in walk(e.node))]
     r.instance()
     r.expect(decs and rel and all(any(elem_dominates(w, x, d) for x in rel) for d in decs), w, decs[0] if decs else None, "task released late",
              "the finished task's closure is not destroyed before _activeThreads is decremented: shutdown can proceed while captured objects are still alive/being destroyed",
@@ -191,13 +456,15 @@ def r4(ctx, r):
         raise AnalysisBroken("worker: %d condition-variable waits" % len(waits))
     wait = waits[0]
     vocab = Vocab(["shutdown", "empty", "wr"])
+    # the local that holds the wait's result is the one initialised from the wait call (identified by dataflow, not by its name)
+    wrd = ([v["d"] for e in w.stmts() if e.node.get("k") == "decl" for v in e.node["vars"] if v.get("init") is not None and strip_wrappers(v["init"]) is wait.node] + [None])[0]
 
     def leaf(n):
         if (n.get("k") == "mcall" and field_of(n.get("obj")) == TP + "::_shutdown") or (n.get("k") == "member" and n["n"] == TP + "::_shutdown"):
             return A("shutdown")
         if n.get("k") == "mcall" and tasks_call(n, ("empty",)):
             return A("empty")
-        if n.get("k") == "var" and n["n"] == "waitResult":
+        if n.get("k") == "var" and n.get("d") == wrd and n.get("parm") is None:
             return A("wr")
         return None
     # predicate of the wait
@@ -218,12 +485,12 @@ def r4(ctx, r):
                 i = strip_wrappers(v.get("init")) if v.get("init") else None
                 if i is wait.node:
                     ops = [("havoc_all", ["shutdown", "empty"])]
-                    if v["n"] == "waitResult" and pf is not None:
+                    if v["d"] == wrd and pf is not None:
                         ops.append(("assign", "wr", pf))     # wait_for(lock, d, pred) returns pred() evaluated under the lock
                     else:
                         ops.append(("havoc", "wr"))
                     return ops
-            if any(v["t"].startswith(("std::unique_lock", "std::lock_guard")) for v in n["vars"]):
+            if any(is_lock_type(v["t"]) for v in n["vars"]):
                 return [("havoc_all", ["shutdown", "empty"])]
         if e is wait and not any(True for x in [w.nodes.get(w.parent.get(wait.node["id"]))] if x is not None and x.get("k") == "decl"):
             return [("havoc_all", ["shutdown", "empty", "wr"])]
@@ -265,18 +532,34 @@ def r5(ctx, r):
     r.instance()
     r.expect(bool(joins) and all(pa.entails(d, A("detached_mode")) for d in dets), p4, dets[0] if dets else None, "threads detached", "phase 4 detaches workers outside DETACHED mode instead of joining them: "
              "destruction returns while tasks still run", okdesc="phase 4: join every joinable worker (detach only in DETACHED mode)")
-    # the loop ends only when no joinable entry is left
+    # the loop ends only when no joinable entry is left: at the function's exit the most recent look at the worker map (critical
+    # section over `_threads`) took nothing out of it.  Ghost `took`: cleared where _mutex is acquired, set where an entry is erased
+    # from `_threads`; when the scan lives in a helper, the helper's result says whether it took one (result_table); a bool flag
+    # local set in the scan (`found`) is followed as an atom of its own (flag_locals) — no local is known by name.
     r.instance()
-    brk = []
-    for b in p4.blocks.values():
-        c, st, sf = common.branch(b) if b.cond is not None else (None, None, None)
-        if c is not None and show(c).replace(" ", "") == "found" and st is not None and sf is not None:
-            # found → another round (the test is reached again); not found → the loop is left for good
-            again = search(p4, ("block", st), lambda x, b=b: x.block is b, eh=False) is not None
-            leaves = search(p4, ("block", sf), lambda x, b=b: x.block is b, eh=False) is None
-            if again and leaves:
-                brk.append(b)
-    r.expect(bool(brk), p4, None, "join loop exit", "phase 4's loop no longer runs until no joinable worker is found", okdesc="phase 4 loops until no joinable entry")
+    is_take = lambda e: e.kind == "stmt" and e.node.get("k") == "mcall" and field_of(e.node.get("obj")) == TP + "::_threads" and last(e.node.get("callee", "")) in ("erase", "extract")
+    takes = [(g, e) for g in [p4] + helpers_from(ctx, p4) for e in g.stmts() if is_take(e)]
+    if not takes:
+        raise AnalysisBroken("phase 4: no removal of a worker entry from _threads found (neither in the function nor in the pool's helpers it calls)")
+    fleaf, feff, fatoms = flag_locals(p4, ["took"])
+    rleaf = result_leaf(ctx, p4, is_take, "took")
+    lockdecl = {v["d"] for e in p4.stmts() if e.node.get("k") == "decl" for v in e.node["vars"] if M in (la.fn(p4).lockvars.get(v["d"]) or ((),))[0]}
+
+    def teff(e):
+        ops = list(feff(e) or [])
+        if e.kind == "stmt":
+            if is_take(e):
+                ops.append(("set", "took", True))
+            elif e.node.get("k") == "decl" and any(v["d"] in lockdecl for v in e.node["vars"]):
+                ops.append(("set", "took", False))
+            else:
+                h = helper(ctx, e.node)
+                if h is not None and may(ctx, h, is_take):
+                    ops.append(("set", "took", True) if always(ctx, h, is_take) else ("havoc", "took"))
+        return ops
+    tpa = PredAbs(p4, Vocab(["took"] + fatoms), lambda n: rleaf(n) or fleaf(n), teff, init=Not(A("took")))
+    r.expect(tpa.exit_entails(Not(A("took"))), p4, None, "join loop exit", "phase 4 can return although its last look at the worker map still took a joinable worker out of it: the loop no longer runs until no joinable worker is found "
+             "(known at exit: %s)" % ",".join(tpa.describe_exit()), okdesc="phase 4 loops until a scan of _threads takes nothing")
     for name in ("<dtor>", "shutdown"):
         f = fn(ctx, name) if name != "<dtor>" else fb.func(TP + "::<dtor>")
         c1 = [e for e in f.stmts() if e.node.get("k") == "mcall" and last(e.node.get("callee", "")) == "shutdownPhase1_SignalShutdown"]
@@ -348,9 +631,9 @@ def r7(ctx, r):
             return None
 
         def eff(e):
-            if e.kind == "stmt" and e.node.get("k") == "decl" and any(v["t"].startswith(("std::unique_lock", "std::lock_guard")) for v in e.node["vars"]):
+            if e.kind == "stmt" and e.node.get("k") == "decl" and any(is_lock_type(v["t"]) for v in e.node["vars"]):
                 return [("havoc", "below")]
-            if e.kind == "dtor" and e.raw.get("t", "").startswith(("std::unique_lock", "std::lock_guard")):
+            if e.kind == "dtor" and is_lock_type(e.raw.get("t", "")):
                 return [("havoc", "below")]
             return None
         pa = PredAbs(f, vocab, leaf, eff, track_bools=False)
@@ -383,17 +666,45 @@ def r9(ctx, r):
     """refusals have a closed set of reasons; an accepted task always gets a worker"""
     from ..finite import dominating_facts
     from ..expr import strip_casts, const_value
-    te = fn(ctx, "tryEnqueueImpl")
-    refusals = [e for e in common.returns(te) if const_value(strip_casts(e.node.get("v") or {})) == 0]
+    te0 = fn(ctx, "tryEnqueueImpl")
+
+    def refusal_exits(g, rets, depth=2):
+        """[(function, return element, [deciding branch blocks])] for the refusing returns `rets` of g.  A return that is decided by
+        the result of one of the pool's helpers (`if (admit(...) != Accepted) return false;`, also through a once-initialised local)
+        stands for the helper's returns of the constants that take that edge: the reasons are looked for where they are tested."""
+        out = []
+        for e in rets:
+            blk_pred = [b for b in g.blocks.values() if b.cond is not None and e.block.id in [x for x in b.succs if x is not None]]
+            expanded, rest = [], []
+            for b in blk_pred:
+                c = strip_casts(b.cond)
+                h, op, k = None, None, None
+                for (o, x, y) in common.cmp_both(c):
+                    if o in ("==", "!=") and const_value(y) is not None and helper(ctx, through_locals(g, x)) is not None:
+                        h, op, k = helper(ctx, through_locals(g, x)), o, const_value(y)
+                        break
+                if h is None and helper(ctx, through_locals(g, c)) is not None:
+                    h, op, k = helper(ctx, through_locals(g, c)), "!=", 0
+                labs = {b.edge_label(si) for si, s in enumerate(b.succs) if s == e.block.id}
+                if h is None or depth <= 0 or len(labs) != 1 or list(labs)[0] not in (True, False):
+                    rest.append(b)
+                    continue
+                lab = list(labs)[0]
+                hr = common.returns(h)
+                if not hr or any(const_value(x.node.get("v") or {}) is None for x in hr):
+                    raise AnalysisBroken("%s: the refusal at line %s is decided by the result of %s, which is not a constant on every return" % (short(g.name), e.line, short(h.name)))
+                # the helper's returns of the constants for which the caller's condition takes the refusing edge
+                expanded += refusal_exits(h, [x for x in hr if ((const_value(x.node["v"]) == k) == (op == "==")) == lab], depth - 1)
+            if rest or not blk_pred:
+                out.append((g, e, rest))
+            out += expanded
+        return out
+    refusals = refusal_exits(te0, [e for e in common.returns(te0) if const_value(strip_casts(e.node.get("v") or {})) == 0])
     if len(refusals) < 3:
         raise AnalysisBroken("tryEnqueueImpl: %d refusal exits (floor 3)" % len(refusals))
-    for e in refusals:
-        facts = dominating_facts(te, e)
+    for (te, e, blk_pred) in refusals:
         r.instance()
         # the innermost deciding condition: a fact on whose edge this return immediately depends
-        reasons = [show(c) for c, t in facts if any(w in show(c) for w in ALLOWED_REFUSAL)]
-        other = [show(c) for c, t in facts if not any(w in show(c) for w in ALLOWED_REFUSAL)]
-        blk_pred = [b for b in te.blocks.values() if b.cond is not None and e.block.id in [x for x in b.succs if x is not None]]
         direct = [show(b.cond) for b in blk_pred]
 
         def allowed(c):
@@ -406,19 +717,22 @@ def r9(ctx, r):
             # flag tests: the accepting / shutdown / state flags, possibly negated or loaded
             return any(w in t for w in ("_accepting", "_shutdown", "_stopping", "_draining", "_state")) and not any(w in t for w in ("size()", "owns_lock", "try_lock"))
         ok = bool(blk_pred) and all(allowed(b.cond) for b in blk_pred)
-        r.expect(ok, te, e, "refusal for another reason", "tryEnqueueImpl refuses the task on the condition `%s`, which is neither 'queue full' nor 'pool draining / shut down': a submission is lost although "
+        r.expect(ok, te0, e, "refusal for another reason", "tryEnqueueImpl refuses the task on the condition `%s`, which is neither 'queue full' nor 'pool draining / shut down': a submission is lost although "
                  "the pool is running with queue space free (e.g. whenever another thread happens to hold the pool mutex)" % "; ".join(direct or ["?"])[:120], okdesc="refusal on `%s`" % (direct[0][:50] if direct else ""))
     # the pool mutex is acquired blockingly (a try-lock turns contention into refusal or into unsynchronised access)
+    # (wherever on the submit path the lock is taken: the submit function itself or a helper it calls; spawnWorker's own lock is
+    # not part of the acceptance decision)
     for nm in ("tryEnqueueImpl", "enqueueImpl"):
         f = fn(ctx, nm)
-        for e in f.stmts():
-            if e.node.get("k") == "decl":
-                for v in e.node["vars"]:
-                    t = v.get("t") or ""
-                    if "unique_lock" in t or "lock_guard" in t or "scoped_lock" in t:
-                        r.instance()
-                        r.expect("try_to_lock" not in show(v.get("init") or {}) and "defer_lock" not in show(v.get("init") or {}), f, e, "non-blocking pool lock: %s" % nm,
-                                 "%s takes the pool mutex with `%s`: contention then decides whether the task is accepted" % (nm, show(v.get("init") or {})[:60]), okdesc="%s: blocking lock" % nm)
+        for g in [f] + [h for h in helpers_from(ctx, f) if may(ctx, h, is_push) or h in [x for (x, _) in push_sites(ctx, f)]]:
+            for e in g.stmts():
+                if e.node.get("k") == "decl":
+                    for v in e.node["vars"]:
+                        t = v.get("t") or ""
+                        if "unique_lock" in t or "lock_guard" in t or "scoped_lock" in t:
+                            r.instance()
+                            r.expect("try_to_lock" not in show(v.get("init") or {}) and "defer_lock" not in show(v.get("init") or {}), f, e, "non-blocking pool lock: %s" % nm,
+                                     "%s takes the pool mutex with `%s`: contention then decides whether the task is accepted" % (nm, show(v.get("init") or {})[:60]), okdesc="%s: blocking lock" % nm)
     # an accepted task always gets a worker: spawnWorker creates its thread unconditionally (the decision was taken under the
     # lock by the submitter; a second, unsynchronised test of the pool state here can strand the task with no worker at all)
     sw = fn(ctx, "spawnWorker")
@@ -434,11 +748,14 @@ def r9(ctx, r):
     # both submit paths: push under the lock, spawn decision under the same lock, notify after the push
     for nm in ("tryEnqueueImpl", "enqueueImpl"):
         f = fn(ctx, nm)
-        push = [e for e in f.stmts() if tasks_call(e.node, ("emplace", "push"))]
-        sp = [e for e in f.stmts() if e.node.get("k") == "mcall" and last(e.node.get("callee", "")) == "spawnWorker"]
-        nt = [e for e in f.stmts() if e.node.get("k") == "mcall" and last(e.node.get("callee", "")) in ("notify_one", "notify_all")]
+        # (push, spawn and notify are counted over the submit function and the pool's helpers it calls; "notify after the push on
+        # every path" is the ghost abstraction of R2: at every normal exit, pushed implies notified)
+        scope = [f] + [h for h in helpers_from(ctx, f) if h.name != sw.name]
+        push = [e for g in scope for e in g.stmts() if is_push(e)]
+        sp = [e for g in scope for e in g.stmts() if is_spawn(e)]
+        nt = [e for g in scope for e in g.stmts() if is_notify(e)]
         r.instance()
-        ok = len(push) == 1 and len(sp) == 1 and len(nt) >= 1 and search(f, push[0], "exit", stop=lambda x: x in nt, eh=False) is None
+        ok = len(push) == 1 and len(sp) == 1 and len(nt) >= 1 and submit_flow(ctx, f).exit_entails(Or(Not(A("pushed")), A("notified")))
         r.expect(ok, f, push[0] if push else None, "accepted task not announced: %s" % nm, "%s can return after queueing the task without notifying a worker" % nm, okdesc="%s: push → (spawn) → notify on every path" % nm)
 
 
@@ -462,6 +779,220 @@ def _subst_members(n, inits, free):
         else:
             out[k] = v
     return out
+
+
+def cap_fact(c, truth):
+    """the fact (condition c has value truth) says `_threads.size() < _maxSize`, in any spelling of the comparison"""
+    co = common.cmp_oriented(strip_casts(c), lambda x: (strip_casts(x) or {}).get("k") == "member" and strip_casts(x)["n"] == TP + "::_maxSize")
+    if not co:
+        return False
+    l = strip_casts(co[1])
+    return (co[0], truth) in (("<", True), (">=", False)) and l.get("k") == "mcall" and field_of(l.get("obj")) == TP + "::_threads" and last(l.get("callee", "")) == "size"
+
+
+def below_cap_known(f, e):
+    return any(cap_fact(c, t) for c, t in finite.dominating_facts(f, e))
+
+
+def _def_from_cap(ctx, g, x, rhs, depth):
+    """one definition `v = rhs` at element x of g: 'cap' (true only if the cap test was seen true), 'false', or 'other'"""
+    rhs = strip_casts(rhs)
+    if rhs is None:
+        return "other"
+    cv = const_value(rhs)
+    if cv == 0:
+        return "false"
+    fl = finite.flatten_fact(rhs, True)
+    if len(fl) == 1 and cap_fact(*fl[0]):
+        return "cap"
+    if cv == 1 and below_cap_known(g, x):
+        return "cap"
+    if rhs.get("k") == "var" and depth > 0 and var_from_cap(ctx, g, rhs, depth - 1):
+        return "cap"
+    return "other"
+
+
+def var_from_cap(ctx, g, var, depth=3):
+    """the bool variable `var` of g (a local or a by-value parameter) is true only if `_threads.size() < _maxSize` was seen true:
+    every definition is that comparison, `true` under it, `false`, or another such variable; a parameter is judged at every call
+    site of g; a local handed to a helper's `bool &` parameter is judged by the helper's assignments to that parameter.  The
+    outcome of the cap test may travel through named bools and helper parameters without a rule losing sight of it."""
+    if var.get("parm") is not None:
+        if ((g.params[var["parm"]].get("t") or "").strip().endswith("&")):
+            return False
+        sites = [(cf, ce, cn) for (cf, ce, cn) in ctx.cg().callers.get(g.name, []) if cf.ok]
+        if not sites:
+            return False
+        for (cf, ce, cn) in sites:
+            args = cn.get("args", [])
+            if len(args) <= var["parm"] or _def_from_cap(ctx, cf, ce, args[var["parm"]], depth) != "cap":
+                return False
+        return True
+    d, defs = var.get("d"), []
+    for e in g.stmts():
+        n = e.node
+        if n.get("k") == "decl":
+            for v in n["vars"]:
+                if v["d"] == d:
+                    defs.append(_def_from_cap(ctx, g, e, v["init"], depth) if v.get("init") is not None else "other")
+        elif n.get("k") in ("bin", "un"):
+            l = strip_casts(n.get("lhs") or n.get("v") or {})
+            if l is not None and l.get("k") == "var" and l.get("d") == d and l.get("parm") is None and access.classify(g, l) != "read":
+                defs.append(_def_from_cap(ctx, g, e, n["rhs"], depth) if n.get("k") == "bin" and n["op"] == "=" else "other")
+        elif n.get("k") in ("call", "mcall", "ctor"):
+            h = helper(ctx, n)
+            for j, a in enumerate(n.get("args", [])):
+                a = strip_wrappers(a)
+                if a is None or a.get("k") != "var" or a.get("d") != d or a.get("parm") is not None:
+                    continue
+                pt = ((h.params[j].get("t") or "") if h is not None and j < len(h.params) else "?").strip()
+                if not pt.endswith("&") and pt != "?":
+                    continue          # passed by value
+                if h is None or pt.startswith("const "):
+                    if h is None:
+                        defs.append("other")      # handed to a function this rule cannot look into
+                    continue
+                for he in h.stmts():          # out-parameter of a helper: every write to it inside the helper
+                    hn = he.node
+                    if hn.get("k") in ("bin", "un"):
+                        hl = strip_casts(hn.get("lhs") or hn.get("v") or {})
+                        if hl is not None and hl.get("k") == "var" and hl.get("parm") == j and access.classify(h, hl) != "read":
+                            defs.append(_def_from_cap(ctx, h, he, hn["rhs"], depth) if hn.get("k") == "bin" and hn["op"] == "=" else "other")
+                    elif hn.get("k") in ("call", "mcall", "ctor") and any((strip_wrappers(y) or {}).get("parm") == j and (strip_wrappers(y) or {}).get("k") == "var" for y in hn.get("args", [])):
+                        defs.append("other")      # forwarded further: not followed
+    return "cap" in defs and "other" not in defs
+
+
+def on_demand_spawn(ctx, f, e):
+    """the spawnWorker() call at e happens only after `_threads.size() < _maxSize` was seen true — tested on a dominating branch,
+    or carried there by a bool (`shouldSpawn`, a helper's parameter): a worker spawned for a task that was just accepted.  Every
+    other spawn site creates workers unconditionally (constructor, start())."""
+    for c, t in finite.dominating_facts(f, e):
+        if cap_fact(c, t):
+            return True
+        c2 = strip_casts(c)
+        if t and c2 is not None and c2.get("k") == "var" and var_from_cap(ctx, f, c2):
+            return True
+    return False
+
+
+def spawn_sites(ctx):
+    """[(function, element, on demand?)] for every spawnWorker() call in a named function of the pool"""
+    out = []
+    for f in ctx.fb().in_file(FILE):
+        if not own(f) or f.kind == "lambda":
+            continue
+        for e in f.stmts():
+            if is_spawn(e) and "root" in e.raw:
+                out.append((f, e, on_demand_spawn(ctx, f, e)))
+    return out
+
+
+FLAG = TP + "::_shutdown"
+
+
+def _flag_store(f, e):
+    """None if element e does not write the shutdown flag; else ('set', constant) or ('havoc',)"""
+    if e.kind == "init":
+        if e.raw.get("field") != FLAG:
+            return None
+        v = e.raw.get("v")
+        while v is not None and ((v.get("k") == "ilist" and len(v.get("vals", [])) == 1) or (v.get("k") == "ctor" and len(v.get("args", [])) == 1)):
+            v = (v.get("vals") or v.get("args"))[0]
+        cv = const_value(v) if v is not None else None
+        return ("set", bool(cv)) if cv is not None else ("havoc",)
+    if e.kind != "stmt":
+        return None
+    for (we, m, kind) in common.field_writes(f, FLAG):
+        if we is e:
+            p = f.nodes.get(f.parent.get(m["id"])) or {}
+            cv = None
+            if p.get("k") == "mcall" and p.get("obj") is m and last(p.get("callee", "")) in ("store", "exchange") and p.get("args"):
+                cv = const_value(p["args"][0])
+            elif p.get("k") == "opcall" and p.get("op") == "=" and len(p.get("args", [])) == 2 and p["args"][0] is m:
+                cv = const_value(p["args"][1])
+            elif p.get("k") == "bin" and p.get("op") == "=" and p.get("lhs") is m:
+                cv = const_value(p["rhs"])
+            return ("set", bool(cv)) if cv is not None else ("havoc",)
+    return None
+
+
+def flag_abs(ctx, f, init=T):
+    """what the function itself knows about the shutdown flag at each point: the value it last stored (constructor initialiser,
+    store(c), `= c` — directly or through a helper all of whose paths store it), or the outcome of its own test of the flag.
+    Nothing is known at entry (init=T) unless the caller of a private helper supplies it.  (Knowledge is the caller's own last look at the flag; that another thread may change it later is
+    R2's and R5's business, not this abstraction's.)"""
+    def leaf(n):
+        if (n.get("k") == "mcall" and field_of(n.get("obj")) == FLAG) or (n.get("k") == "member" and n["n"] == FLAG):
+            return A("shutdown")
+        return None
+
+    def writes(val):
+        return lambda x: (lambda w: w is not None and (w == ("set", val) if val is not None else True))(_flag_store(x.fn, x))
+
+    def eff(e):
+        w = _flag_store(f, e)
+        if w is not None:
+            return [("set", "shutdown", w[1])] if w[0] == "set" else [("havoc", "shutdown")]
+        h = helper(ctx, e.node) if e.kind == "stmt" else None
+        if h is not None and may(ctx, h, writes(None)):
+            for val in (False, True):
+                if always(ctx, h, writes(val)) and not may(ctx, h, lambda x, val=val: writes(None)(x) and not writes(val)(x)):
+                    return [("set", "shutdown", val)]
+            return [("havoc", "shutdown")]
+        return None
+    return PredAbs(f, Vocab(["shutdown"]), leaf, eff, init=init)
+
+
+def flag_clear_at(ctx, f, e, depth=3):
+    """the flag is known clear at element e of f: by f's own stores/tests, or — f being a private helper that keeps the flag clear
+    from its entry to e — at every call site of f (so the spawn loop may be moved into a helper shared by constructor and start())"""
+    return not flag_unknown_at(ctx, f, e, depth)
+
+
+def flag_unknown_at(ctx, f, e, depth=3):
+    """[(function, element)]: the places where the knowledge is missing (empty: the flag is known clear at e)"""
+    clear = Not(A("shutdown"))
+    if flag_abs(ctx, f).entails(e, clear):
+        return []
+    if depth > 0 and f.kind == "method" and f.access in ("private", "protected") and flag_abs(ctx, f, init=clear).entails(e, clear):
+        sites = [(cf, ce) for (cf, ce, cn) in ctx.cg().callers.get(f.name, []) if cf.ok]
+        if sites:
+            return [x for (cf, ce) in sites for x in flag_unknown_at(ctx, cf, ce, depth - 1)]
+    return [(f, e)]
+
+
+def site_weight(ctx, f):
+    """how many callers stand behind a spawn site: 1, or the number of call sites when the site is in a private helper"""
+    if f.kind == "method" and f.access in ("private", "protected"):
+        return max(1, len({(cf.name, ce.line) for (cf, ce, cn) in ctx.cg().callers.get(f.name, []) if cf.ok}))
+    return 1
+
+
+def r11(ctx, r):
+    """workers are created only once the state they test on entry says 'running'.  A worker whose first look at the pool finds
+    `_shutdown` set (and the queue empty) takes the shutdown exit at once; its joinable std::thread stays in `_threads` and keeps
+    counting against `_maxSize`, so a pool whose initial workers all died that way accepts tasks that nobody runs.  Decided: at
+    every unconditional spawn site (constructor, start() — every spawnWorker() call that is not the on-demand spawn behind the cap
+    test) the creating function knows the flag clear: its own store of false (or the constructor's initialiser) comes before the
+    spawn on every path, with no later store of true."""
+    n = 0
+    for (f, e, on_demand) in spawn_sites(ctx):
+        if on_demand:
+            continue
+        n += site_weight(ctx, f)
+        r.instance()
+        bad = flag_unknown_at(ctx, f, e)
+        (wf, we) = bad[0] if bad else (f, e)
+        pa = flag_abs(ctx, wf)
+        r.expect(not bad, wf, we, "workers created before the shutdown flag is cleared: %s" % short(wf.name),
+                 "%s " % short(wf.name) + ("calls spawnWorker()" if wf is f else "calls %s (which spawns the workers at line %s)" % (short(f.name), e.line)) +
+                 " at a point where it has not (on every path) stored false into `_shutdown` (known: %s): a worker started while the flag is still set from the previous stop() "
+                 "sees `_shutdown && _tasks.empty()` on its first look and returns; its joinable thread stays in `_threads` and counts against `_maxSize`, so with initialSize == maxSize the restarted pool "
+                 "accepts tasks (enqueue succeeds, no spawn, notify wakes nobody) that are never executed" % (",".join(pa.describe(we)) or "nothing about the flag"),
+                 okdesc="%s: `_shutdown` is known false (own store / initialiser) at the spawn at line %s" % (short(f.name), e.line))
+    if n < 2:
+        raise AnalysisBroken("unconditional spawn sites: %d found (constructor and start() expected)" % n)
 
 
 def r10(ctx, r):
@@ -491,10 +1022,11 @@ def r10(ctx, r):
         for e in f.stmts():
             if not (e.node.get("k") == "mcall" and last(e.node.get("callee", "")) == "spawnWorker" and "root" in e.raw):
                 continue
-            # submit paths are R7's business: there the spawn is behind the `_threads.size() < _maxSize` test
-            if any(b.cond is not None and "_threads.size()" in show(b.cond) for b in f.blocks.values()):
+            # submit paths are R7's business: there the spawn is behind the `_threads.size() < _maxSize` test (tested on a dominating
+            # branch or carried to the spawn by a bool local / helper parameter — on_demand_spawn)
+            if on_demand_spawn(ctx, f, e):
                 continue
-            n += 1
+            n += site_weight(ctx, f)
             r.instance()
             loops = [b for b in f.blocks.values() if b.term and b.term["k"] in ("ForStmt", "WhileStmt") and b.cond is not None and common.cmp_oriented(b.cond, lambda x: True)
                      and search(f, ("block", [s for i, s in enumerate(b.succs) if b.edge_label(i) is True][0]), lambda x: x is e, edge_ok=lambda bb, si: bb is not b) is not None]
@@ -609,4 +1141,5 @@ def run(ctx, ck):
     ck.run_rule("C09-R7", "thread cap is decided in the inserting critical section", "A5 + A1", lambda r: r7(ctx, r))
     ck.run_rule("C09-R9", "refusals have a closed set of reasons; an accepted task always gets a worker and a wake-up", "A2 dominance + closed table", lambda r: r9(ctx, r))
     ck.run_rule("C09-R10", "initial workers bounded by the maximum; a second shutdown() waits for the first", "A10 exact evaluation of the constructor's initialisers + A2 barrier search", lambda r: r10(ctx, r))
+    ck.run_rule("C09-R11", "workers are created only after the creating function cleared the shutdown flag", "A5 over the function's own stores/tests of the flag + A2", lambda r: r11(ctx, r))
     ck.run_rule("C09-R8", "condition-variable discipline for the worker wait", "A1", lambda r: r8(ctx, r))
